@@ -179,3 +179,44 @@ Example C19_order_example :
    | Ans r, Ans r' => list_eqb str_eqb (map fst r) (map fst r')
    | _, _ => false end) = true.
 Proof. split; [apply Permutation_rev|]. split; [discriminate|vm_compute; reflexivity]. Qed.
+
+(** ---- non-vacuity, remaining premise combinations (wp-audit) ---- *)
+
+(** C19_tuner_failure_isolated, third clause (lookup mode, category list given, the failing category B requested):
+    B's entry is the tuner's error, the others are what the request without B gives *)
+Example C19_tuner_failure_lookup_example :
+  let cs := [U"AB"; U"B"; U"A"; U"B"] in
+  ex_tuner (U"B") = Raises (U"TunerError") /\ lookup_mode None /\
+  exists r, play extract_split ex_tuner ex_lookup ex_beh true None (Some cs) = Ans r /\
+            map fst r = [U"AB"; U"B"; U"A"] /\ In (U"B", CatError (U"TunerError")) r /\
+            play extract_split ex_tuner ex_lookup ex_beh true None (Some (without_cat (U"B") cs)) = Ans (without_entry (U"B") r) /\
+            map fst (without_entry (U"B") r) = [U"AB"; U"A"].
+Proof.
+  cbv zeta. split; [reflexivity|]. split; [left; reflexivity|].
+  eexists. split; [vm_compute; reflexivity|]. split; [reflexivity|]. split; [right; left; reflexivity|].
+  split; vm_compute; reflexivity.
+Qed.
+
+(** C19_explicit_total / C19_played_once on the S3 id template, where [extract] is partial: every id of the
+    request can be attributed (premise), an id that cannot makes play() fail as a whole *)
+Example C19_explicit_total_example :
+  let ids := [U"AB/20200227/x"; U"A/20200228/y"; U"A_B/20200227/z"] in
+  ids <> [] /\ (forall id, In id ids -> exists c, extract_parse id = Ans c) /\
+  (forall id, In id ids -> ex_beh id <> BMissing) /\
+  play extract_parse ex_tuner (fun _ => Ans []) ex_beh false (Some (ids ++ [U"A/b"])) None = Raises (U"AssertionError").
+Proof.
+  cbv zeta. split; [discriminate|]. split.
+  - intros id [<-|[<-|[<-|[]]]]; eexists; vm_compute; reflexivity.
+  - split; [intros id [<-|[<-|[<-|[]]]]; vm_compute; discriminate|vm_compute; reflexivity].
+Qed.
+
+(** C19_failure_independent: two tuners that differ on B only, same request: same categories, same result for A *)
+Example C19_failure_independent_example :
+  let t2 := fun c => if str_eqb c (U"B") then Ans (Tuning (U"p") (U"e") (U"c") (U"d")) else ex_tuner c in
+  exists r1 r2, play extract_split ex_tuner (fun _ => Ans []) ex_beh false (Some ex_ids) None = Ans r1 /\
+                play extract_split t2 (fun _ => Ans []) ex_beh false (Some ex_ids) None = Ans r2 /\
+                ex_tuner (U"A") = t2 (U"A") /\ ex_tuner (U"B") <> t2 (U"B") /\ r1 <> r2 /\ map fst r1 = map fst r2.
+Proof.
+  cbv zeta. do 2 eexists. split; [vm_compute; reflexivity|]. split; [vm_compute; reflexivity|].
+  split; [reflexivity|]. split; [vm_compute; discriminate|]. split; [vm_compute; discriminate|reflexivity].
+Qed.
